@@ -76,4 +76,8 @@ theorem C08_buffer_lookahead_attained (c : Cfg) (hm : 1 ≤ c.maxsize) (hn : c.m
   refine ⟨_, h2, ?_⟩
   simp [fillState]; omega
 
+/-- the queue of `buffer(maxsize)` does fill up to `maxsize` entries, for every `maxsize ≥ 1` -/
+theorem C08_buffer_queue_bound_attained (c : Cfg) (hm : 1 ≤ c.maxsize) (hn : c.maxsize + 1 ≤ c.n) :
+    ∃ s, Reachable c s ∧ s.queue.length = c.maxsize :=
+  ⟨fillState c.maxsize, fill_reachable c c.maxsize (Nat.le_refl _) hm (by omega), by simp [fillState]⟩
 end Buffer
